@@ -17,6 +17,7 @@ def Tree.dumpNode (t : Tree) (n : Node) : DNode :=
 def Tree.toDump (t : Tree) : Dump :=
   { counter := t.counter
     names := t.names.map (fun e => (e.1, e.2.id, (t.live e.2).isSome))
+    shadowed := t.shadowed.map (fun e => (e.1, e.2.map (fun q => (q.id, (t.live q).isSome))))
     nodes := t.pids.map (fun e => t.dumpNode e.2) }
 
 end GoaktVerif.Model.C09
